@@ -15,7 +15,7 @@ import re
 from collections import Counter
 from pathlib import Path
 
-from .kit import H, Scratch, Trace, short, stream, weighted
+from .kit import pristine, H, Scratch, Trace, short, stream, weighted
 from .gen import schema as S
 from . import parsekit as K
 
@@ -369,7 +369,7 @@ def minimise(v):
 
     def fails(files):
         try:
-            return any(x["signature"].split(":")[1:3] == key for x in check_workload(dict(w, files=files)))
+            return any(x["signature"].split(":")[1:3] == key for x in pristine(check_workload, dict(w, files=files)))
         except Exception:
             return False
 
@@ -381,7 +381,7 @@ def minimise(v):
         kept = ddmin(lines, lambda ls: fails(dict(files, **{name: "\n".join(ls)})), 80)
         files[name] = "\n".join(kept)
     out = dict(v, workload=dict(w, files=files), minimised=True)
-    vs = [x for x in check_workload(out["workload"]) if x["signature"].split(":")[1:3] == key]
+    vs = [x for x in pristine(check_workload, out["workload"]) if x["signature"].split(":")[1:3] == key]
     if vs:
         out["message"] = vs[0]["message"]
         return out
